@@ -374,7 +374,10 @@ def replay(case):
             return False, 'assignment has %d values, formula %d variables' % (len(a), n)
         alg = PyAlg(a)
         fv = bool(enc_rows(alg, rows, opb))
-        sv = bool(h.spec(alg, p, F))
+        if getattr(h, 'spec_alternatives', None) is not None:
+            sv = bool(h.spec_alternatives(alg, p, F)[0])
+        else:
+            sv = bool(h.spec(alg, p, F))
         return fv != sv, 'formula evaluates to %s, documented meaning to %s under %s' % (fv, sv, a)
     if kind == 'satisfiability':
         a = inp.get('_assignment')
